@@ -119,3 +119,27 @@ pub fn mirror(n_games: u64) {
         }
     });
 }
+
+/// exhaustive small endgames (thorough tier): every placement of K + X v K, X any piece of
+/// either colour, either side to move; sharded over VERIF_SHARD / VERIF_NSHARDS by the white
+/// king's square.  `stride` > 1 samples every stride-th placement (quick smoke runs).
+pub fn endgame(stride: u64) {
+    use std::convert::TryFrom;
+    let out = std::io::stdout(); let mut out = std::io::BufWriter::new(out.lock());
+    let mut rng = Rng::new(1);
+    let pcs = [Piece::Queen, Piece::Rook, Piece::Bishop, Piece::Knight, Piece::Pawn];
+    let mut n: u64 = 0;
+    for wk in 0..64usize {
+        if wk % nshards() != shard() { continue; }
+        for bk in 0..64usize { if bk == wk { continue; }
+            for x in 0..64usize { if x == wk || x == bk { continue; }
+                for p in pcs.iter() { for c in [Color::White, Color::Black].iter() { for stm in [Color::White, Color::Black].iter() {
+                    n += 1; if stride > 1 && n % stride != 0 { continue; }
+                    let mut bb = BoardBuilder::new();
+                    bb.piece(sq(wk), Piece::King, Color::White).piece(sq(bk), Piece::King, Color::Black).piece(sq(x), *p, *c).side_to_move(*stm);
+                    if let Ok(b) = Board::try_from(&bb) { writeln!(out, "{}", line_for(&b, &mut rng, false, false)).unwrap(); }
+                } } }
+            }
+        }
+    }
+}
